@@ -181,6 +181,7 @@ class FakeSocket(object):
         return self.fd
 
     def connect(self, sa):
+        self.w.log.append(('connect-attempt', self.id, sa))
         self.w.op('connect', self)
         self.addr = sa
         self.connected = True
@@ -313,6 +314,7 @@ class FakeSocketModule(object):
     @staticmethod
     def socket(af=None, socktype=None, proto=None):
         w = World.cur
+        w.log.append(('socket-attempt',))
         w.op('socket', None)
         return _PlainSocket(w, af)
 
